@@ -4,4 +4,4 @@ set -e
 D=$(mktemp -d /tmp/mutXXXX); cp -r /repo/paranoid_crypto $D/
 sed -i "$2" $D/$1
 if cmp -s $D/$1 /repo/$1; then echo "MUTATION DID NOT APPLY"; rm -rf $D; exit 9; fi
-cd /tmp/vdev && VERIF_REPO=$D .venv/bin/python dev.py "$3" $4 | grep -v "^  ok" ; rm -rf $D
+cd /verif && VERIF_REPO=$D .venv/bin/python dev.py "$3" $4 | grep -v "^  ok" ; rm -rf $D
